@@ -20,6 +20,7 @@ import (
 	"os"
 	"sync"
 	"sync/atomic"
+	"time"
 
 	stk "github.com/JesseCoretta/go-stackage"
 )
@@ -232,10 +233,16 @@ func stressQueries(rounds, workers int, seed uint64) []string {
 			return an
 		}
 		want := ask()
+		// an independently rebuilt copy, compared in both directions from different goroutines
+		cp := t.BuildStack()
+		if round%2 == 0 {
+			cp.SetMutex()
+		}
+		wantEq := s.IsEqual(cp) == nil
 		var wg sync.WaitGroup
 		for w := 0; w < workers; w++ {
 			wg.Add(1)
-			go func() {
+			go func(w int) {
 				defer wg.Done()
 				defer func() {
 					if r := recover(); r != nil {
@@ -246,10 +253,26 @@ func stressQueries(rounds, workers int, seed uint64) []string {
 					if got := ask(); got != want {
 						report(fmt.Sprintf("round %d: answers differ from the answers in isolation", round))
 					}
+					var e error
+					if w%2 == 0 {
+						e = s.IsEqual(cp)
+					} else {
+						e = cp.IsEqual(s)
+					}
+					if (e == nil) != wantEq {
+						report(fmt.Sprintf("round %d: IsEqual verdict differs from the verdict in isolation", round))
+					}
 				}
-			}()
+			}(w)
 		}
-		wg.Wait()
+		done := make(chan struct{})
+		go func() { wg.Wait(); close(done) }()
+		select {
+		case <-done:
+		case <-time.After(20 * time.Second):
+			report(fmt.Sprintf("round %d: parallel queries did not finish (deadlock): queries must be lock-free", round))
+			return problems
+		}
 	}
 	return problems
 }
